@@ -1,6 +1,7 @@
 package fam
 
 import (
+	"bytes"
 	"crypto/rand"
 	"encoding/json"
 	"errors"
@@ -90,6 +91,67 @@ func (r *flakyReader) Read(p []byte) (int, error) {
 	return r.inner.Read(p)
 }
 
+// edgeReader serves prepared 16-octet blocks, one per 16-octet Read.
+type edgeReader struct {
+	inner  io.Reader
+	blocks [][]byte
+	i      int
+}
+
+func (r *edgeReader) Read(p []byte) (int, error) {
+	if len(p) == 16 && r.i < len(r.blocks) {
+		copy(p, r.blocks[r.i])
+		r.i++
+		return 16, nil
+	}
+	return r.inner.Read(p)
+}
+
+// edgeBlocks: 16-octet blocks at the edges of the value space, pairwise distinct in their free bits (two blocks that
+// differ only in forced bits would, correctly, give the same identifier).
+func edgeBlocks() [][]byte {
+	var out [][]byte
+	seen := map[[16]byte]bool{}
+	add := func(b []byte) {
+		k := freeBitsKey(b)
+		if !seen[k] {
+			seen[k] = true
+			out = append(out, b)
+		}
+	}
+	fill := func(v byte) []byte { return bytes.Repeat([]byte{v}, 16) }
+	add(fill(0x00))
+	add(fill(0xff))
+	add(fill(0x0f))
+	add(fill(0xf0))
+	for k := 1; k < 16; k++ { // k zero octets in front / at the end, the rest a counting pattern
+		f, e := fill(0), fill(0)
+		for i := 0; i < 16; i++ {
+			if i >= k {
+				f[i] = byte(0x11 * (i%15 + 1))
+			}
+			if i < 16-k {
+				e[i] = byte(0x11 * (i%15 + 1))
+			}
+		}
+		add(f)
+		add(e)
+	}
+	for bit := 0; bit < 128; bit += 3 { // a single set bit / a single clear bit
+		one, zero := fill(0), fill(0xff)
+		one[bit/8] |= 1 << (bit % 8)
+		zero[bit/8] &^= 1 << (bit % 8)
+		add(one)
+		add(zero)
+	}
+	for _, v := range []byte{0x00, 0x0a, 0xa0, 0xff} { // the two octets that carry the forced bits
+		b := fill(0x5a)
+		b[6], b[8] = v, v
+		add(b)
+	}
+	return out
+}
+
 func freeBitsKey(b []byte) [16]byte {
 	var k [16]byte
 	copy(k[:], b)
@@ -138,9 +200,10 @@ func codes(s string) []int {
 
 // Extra builds the whole history: several SP instances, several goroutines, all three message kinds.
 func (IdGen) Extra(tier string, seed int64) []orch.Case {
-	total := 20000
+	// more than 2^16 constructions in one process even in the quick tier (a per-process counter of that width wraps)
+	total := 140000
 	if tier == "thorough" {
-		total = 150000
+		total = 300000
 	}
 	const nSP, nG = 4, 8
 	rec := &recReader{inner: rand.Reader}
@@ -267,6 +330,31 @@ func (IdGen) Extra(tier string, seed int64) []orch.Case {
 		orch.Fatal("idgen: the flaky entropy source did not behave as intended (%d reads, %d of 300 builds refused)", flaky.calls, refused)
 	}
 	rand.Reader = rec
+	// phase with prepared entropy: blocks at the edges of the value space (runs of zero octets in front, at the end, in the
+	// middle; all ones; single set bits), each used for one message. The identifier must be the rendering of its block.
+	edge := &edgeReader{inner: rec, blocks: edgeBlocks()}
+	rand.Reader = edge
+	edgeDraw := map[string][]byte{}
+	for i := range edge.blocks {
+		kind := []string{"authn", "logoutReq", "logoutResp"}[i%3]
+		var doc *etree.Document
+		var err error
+		switch kind {
+		case "authn":
+			doc, err = sps[1].BuildAuthRequestDocumentNoSig()
+		case "logoutReq":
+			doc, err = sps[1].BuildLogoutRequestDocumentNoSig("alice@example.com", "sess-1")
+		default:
+			doc, err = sps[1].BuildLogoutResponseDocumentNoSig(saml2.StatusCodeSuccess, "_req-1")
+		}
+		if err != nil || doc == nil || doc.Root() == nil || edge.i != i+1 {
+			orch.Fatal("idgen: edge phase: build %s: %v (blocks consumed %d, expected %d)", kind, err, edge.i, i+1)
+		}
+		id := doc.Root().SelectAttrValue("ID", "")
+		evs = append(evs, rawEv{kind + "/edge-entropy", 1, 0, id})
+		edgeDraw[id] = edge.blocks[i]
+	}
+	rand.Reader = rec
 	// fourth phase: the first messages of a process. Each run of cmd/verifcold is a fresh process in which twelve
 	// goroutines, released together, build the first 36 messages; it reports the identifiers and its entropy reads.
 	nCold := 40
@@ -308,7 +396,12 @@ func (IdGen) Extra(tier string, seed int64) []orch.Case {
 		if ev.Prev == nil {
 			ev.Prev = []int{}
 		}
-		if d, ok := shortDraw[e.id]; ok && strings.HasSuffix(e.kind, "/short-reads") {
+		if d, ok := edgeDraw[e.id]; ok && strings.HasSuffix(e.kind, "/edge-entropy") {
+			ev.DrawsMatching = 1
+			for _, x := range d {
+				ev.Draw = append(ev.Draw, int(x))
+			}
+		} else if d, ok := shortDraw[e.id]; ok && strings.HasSuffix(e.kind, "/short-reads") {
 			ev.DrawsMatching = 1
 			for _, x := range d {
 				ev.Draw = append(ev.Draw, int(x))
